@@ -214,6 +214,23 @@ def cases(draw, tier):
 
 
 @st.composite
+def sync_cases(draw):
+    atom = st.sampled_from(['d0', 'd0', 'd1', 'f', 't']).map(lambda a: ['atom', a])
+
+    def expr(depth):
+        if depth == 0 or draw(st.integers(0, 3)) == 0:
+            a = draw(atom)
+            return ['not', a] if draw(st.integers(0, 2)) == 0 else a
+        e = [draw(st.sampled_from(['and', 'or'])), expr(depth - 1), expr(depth - 1)]
+        return ['not', e] if draw(st.integers(0, 4)) == 0 else e
+    exprs = [expr(draw(st.integers(1, 2))) for _ in range(draw(st.integers(1, 3)))]
+    steps = ['eval'] * draw(st.integers(0, 2)) + [draw(st.sampled_from([0, 1]))] + ['eval']
+    if draw(st.booleans()):
+        steps += [1 - steps[-2]] + ['eval']
+    return {'sync': {'exprs': exprs, 'steps': steps, 'flag': draw(st.booleans()), 'tracked': draw(st.sampled_from([0, 3]))}}
+
+
+@st.composite
 def reuse_cases(draw):
     """One condition *object* with a history: a first waiter is served (or cancelled right after it subscribed), the
     condition turns false again while nobody waits, a later waiter awaits the same object, it turns true again."""
@@ -286,9 +303,69 @@ class C08(Check):
     design_ref = 'DESIGN.md section 3, C08'
 
     def strategy(self, tier):
-        return st.one_of(cases(tier), cases(tier), cases(tier), cases(tier), cases(tier), reuse_cases())
+        return st.one_of(cases(tier), cases(tier), cases(tier), cases(tier), cases(tier), reuse_cases(), sync_cases())
+
+    def sync_case(self, case):
+        """one condition *object* evaluated several times within one activation while an operand changes in between
+        (the completion of a task that is cancelled before its first turn changes at once): always the current value"""
+        import usim
+        from vlib.probe import run_probed
+        out = Outcome()
+        out.evals = 1
+        spec = case['sync']
+        rows = []
+
+        def build(e, atoms):
+            if e[0] == 'atom':
+                return atoms[e[1]]
+            if e[0] == 'not':
+                return ~build(e[1], atoms)
+            a, b = build(e[1], atoms), build(e[2], atoms)
+            return (a & b) if e[0] == 'and' else (a | b)
+
+        def value(e, vals):
+            if e[0] == 'atom':
+                return vals[e[1]]
+            if e[0] == 'not':
+                return not value(e[1], vals)
+            a, b = value(e[1], vals), value(e[2], vals)
+            return (a and b) if e[0] == 'and' else (a or b)
+
+        async def victim():
+            await (usim.time + 1)
+
+        async def main():
+            flag = usim.Flag()
+            tr = usim.Tracked(spec['tracked'])
+            if spec['flag']:
+                await flag.set()
+            async with usim.Scope() as scope:
+                tasks = [scope.do(victim()) for _ in range(2)]
+                atoms = {'d0': tasks[0].done, 'd1': tasks[1].done, 'f': flag, 't': tr >= 2}
+                vals = {'d0': False, 'd1': False, 'f': spec['flag'], 't': spec['tracked'] >= 2}
+                conds = [build(e, atoms) for e in spec['exprs']]
+                for step in spec['steps']:
+                    if step == 'eval':
+                        rows.append(([bool(c) for c in conds], [value(e, vals) for e in spec['exprs']], dict(vals)))
+                    else:
+                        tasks[step].cancel()
+                        vals['d%d' % step] = True
+        oc, exc, _ = run_probed([main()], probe=Probe(b_step=2000, b_total=20000))
+        if oc != 'ok':
+            out.fail('run_outcome', 'sync:%s:%s' % (oc, type(exc).__name__), 'run() ended with %s %r' % (oc, exc))
+            return out
+        for got, want, vals in rows:
+            if got != want:
+                out.fail('bool', 'sync_change:stale_value', 'conditions %r over %r evaluate to %r, expected %r (the same objects were '
+                         'evaluated earlier in this activation, before a task was cancelled)' % (spec['exprs'], vals, got, want))
+                break
+        out.nontrivial = True
+        out.features.add('operand_changed_within_one_activation')
+        return out
 
     def run_case(self, case, tier='quick'):
+        if 'sync' in case:
+            return self.sync_case(case)
         out = Outcome()
         out.evals = 0
         n = self._one(out, case, None)
